@@ -244,7 +244,10 @@ class Interp:
         self.body_stack.append(FX.strip(fn["body"]))
         try:
             try:
-                v = self.ev(fn["body"], env)
+                if (fn.get("ret_ty") or "").startswith("&mut "):
+                    v = self.ev_raw(fn["body"], env)  # an accessor handing out `&mut field`: keep the place
+                else:
+                    v = self.ev(fn["body"], env)
             except ReturnSignal as r:
                 v = r.val
         finally:
@@ -387,6 +390,14 @@ class Interp:
 
             return Ref(g, s, f"{base.desc}.{name}", root_id=base.root_id)
         if k == "Index":
+            ci_ = FX.callee_info(e)
+            if ci_.get("resolved_local") and ci_.get("resolved") in self.F.fns:
+                # Index / IndexMut implemented by the crate for its own type (a newtype around a Vec, ..): interpret it
+                r_ = self.call_fn(ci_["resolved"], [self.place(e["base"], env), self.ev(e["idx"], env)], e)
+                if isinstance(r_, Ref):
+                    return r_
+                box_ = [r_]
+                return Ref(lambda: box_[0], lambda nv: box_.__setitem__(0, nv), "indexed-tmp")
             base = self.place(e["base"], env)
             idx = self.ev(e["idx"], env)
 
@@ -456,6 +467,8 @@ class Interp:
 
     def index_val(self, b, idx, e=None):
         b = self.deref(b)
+        if self.newtype_inner(b) is not None:
+            b = self.newtype_inner(b)
         if self.loop_ctx and isinstance(b, Vec):
             pw = self.pending_write(b, idx)
             if pw is not None:
@@ -593,7 +606,7 @@ class Interp:
                     continue
                 v = self.ev_raw(s["init"], env)
                 if s.get("els"):
-                    raise Unanalysable("let-else")
+                    v = self.let_else(s, self.deref(v), env)
                 # bind by value unless the initialiser is an explicit mutable borrow
                 if not (isinstance(v, Ref) and self.is_mut_borrow(s["init"])):
                     v = self.deref(v)
@@ -627,6 +640,68 @@ class Interp:
                 self.tail_ids.add(id(FX.strip(e["expr"])))
             return self.ev_raw(e["expr"], env)
         return UNIT
+
+    def let_else(self, s, v, env):
+        """`let PAT = init else { diverge };` : the value that matches PAT (the other alternative leaves through the else
+        block, recorded as an exit guard like `?`)"""
+        pat = s["pat"]
+        where = FX.short(s.get("sp") or s["init"].get("sp"))
+        if isinstance(v, Opaque) and v.what == "result":
+            c = Cond("is_ok", text=repr(v))
+            v = Ite(c, Enum("Result", "Ok", [v.info.get("ok", UNIT)]), Enum("Result", "Err", [v.info.get("err", Opaque("error-value"))]))
+
+        def leave():
+            try:
+                self.ev_raw(s["els"], env)
+            except ReturnSignal as r:
+                return r.val
+            raise Unanalysable("let-else whose else block does not return", where)
+
+        if isinstance(v, Enum):
+            if self.pat_matches(pat, v):
+                return v
+            raise ReturnSignal(leave())
+        def all_leave(x):
+            x = self.deref(x)
+            if isinstance(x, Enum):
+                return not self.pat_matches(pat, x)
+            if isinstance(x, Ite):
+                return all_leave(x.a) and all_leave(x.b)
+            raise Unanalysable(f"let-else on {x!r}", where)
+
+        def guard_out(c_leave, truth_of_cond):
+            old = self.sub_trace()
+            self.assuming(c_leave if not getattr(c_leave, "neg", False) else c_leave.negate(), truth_of_cond)
+            try:
+                rv = leave()
+            finally:
+                self.assumed.pop()
+                sub_ = self.trace
+                self.trace = old
+            if any(it[0] != "guard" for it in sub_.items):
+                raise Unanalysable("effects inside the else block of a let-else", where)
+            self.trace.add("guard", c_leave, rv, where, self.fn_stack[-1] if self.fn_stack else "")
+            self.learn(c_leave)
+
+        def resolve(x):
+            x = self.deref(x)
+            if isinstance(x, Enum):
+                return x
+            la, lb = all_leave(x.a), all_leave(x.b)
+            if la and lb:
+                raise ReturnSignal(leave())
+            if la:
+                guard_out(x.cond, True)
+                return resolve(x.b)
+            if lb:
+                guard_out(x.cond.negate(), False)
+                return resolve(x.a)
+            ra, rb = resolve(x.a), resolve(x.b)
+            return ra if val_eq(ra, rb) else Ite(x.cond, ra, rb)
+
+        if isinstance(v, Ite) and isinstance(v.cond, Cond):
+            return resolve(v)
+        raise Unanalysable(f"let-else on {v!r}", where)
 
     def is_mut_borrow(self, e):
         if e["k"] == "AddrOf" and e["mut"]:
@@ -677,6 +752,9 @@ class Interp:
         return self.get_field(b, e["name"], e)
 
     def ev_Index(self, e, env):
+        ci_ = FX.callee_info(e)
+        if ci_.get("resolved_local") and ci_.get("resolved") in self.F.fns:
+            return self.deref(self.call_fn(ci_["resolved"], [self.ev_raw(e["base"], env), self.ev(e["idx"], env)], e))
         b = self.ev(e["base"], env)
         i = self.ev(e["idx"], env)
         if self.loop_ctx and isinstance(b, Vec):
@@ -821,13 +899,27 @@ class Interp:
                 if (op == "||" and lc_) or (op == "&&" and not lc_):
                     return BoolV(lc_)
                 return self.ev(e["r"], env)
-            r = self.ev(e["r"], env)
+            # short-circuit: the right operand is evaluated only when the left one is false (||) / true (&&)
+            n_facts = len(self.bounds.facts)
+            if isinstance(l, BoolV) and isinstance(l.e, Cond):
+                self.learn(l.e if op == "||" else l.e.negate())
+                self.assuming(l.e, op == "&&")
+            try:
+                r = self.ev(e["r"], env)
+            finally:
+                if isinstance(l, BoolV) and isinstance(l.e, Cond):
+                    self.assumed.pop()
+                del self.bounds.facts[n_facts:]
             rc_ = self.decide(r.e) if isinstance(r, BoolV) else None
             if isinstance(rc_, bool):
                 if (op == "||" and rc_) or (op == "&&" and not rc_):
                     return BoolV(rc_)
                 return l
-            return BoolV(Cond("other", text=f"{l!r}{op}{r!r}"))
+            c_ = Cond("or" if op == "||" else "and", text=f"{l!r}{op}{r!r}")
+            if isinstance(l, BoolV) and isinstance(r, BoolV) and isinstance(l.e, Cond) and isinstance(r.e, Cond):
+                same = lambda x: list(x.parts) if getattr(x, "op", "") == c_.op and not x.neg and hasattr(x, "parts") else [x]
+                c_.parts = same(l.e) + same(r.e)
+            return BoolV(c_)
         l = self.ev(e["l"], env)
         r = self.ev(e["r"], env)
         ci = FX.callee_info(e)
@@ -1021,8 +1113,10 @@ class Interp:
             self.trace = old
             if any(it[0] not in ("guard",) for it in sub.items):
                 raise Unanalysable("effects inside an early-return branch", FX.short(e.get("sp")))
-            self.trace.add("guard", c, rv, FX.short(e.get("sp")), self.fn_stack[-1] if self.fn_stack else "")
-            self.learn(c)
+            for c1 in self.disjuncts(c):
+                # `if a || b || c { return X }` is three guards in a row (short-circuit order)
+                self.trace.add("guard", c1, rv, FX.short(e.get("sp")), self.fn_stack[-1] if self.fn_stack else "")
+                self.learn(c1)
             return UNIT
         # value-producing / effectful branch: evaluate both sides on copies of the mutable state
         snap = self.snapshot(env)
@@ -1071,6 +1165,11 @@ class Interp:
         if isinstance(vt, (Vec, Tup)) and vt.__class__ is vf.__class__:
             return self.merge_val(c, vt, vf, None)
         return Ite(c, vt, vf)
+
+    def disjuncts(self, c):
+        if isinstance(c, Cond) and c.op == "or" and not c.neg and getattr(c, "parts", None):
+            return list(c.parts)
+        return [c]
 
     def learn(self, c):
         """facts that hold after a guard `if c { return .. }` was passed"""
@@ -1315,9 +1414,11 @@ class Interp:
             a, b = v.a, v.b
             if isinstance(a, Enum) and a.variant in ("Err", "None") and isinstance(b, Enum) and b.variant in ("Ok", "Some"):
                 self.resolve_alt(v.cond, True, ("guard", v.cond, a, where, fnname))
+                self.learn(v.cond)
                 return b.payload[0] if b.payload else UNIT
             if isinstance(b, Enum) and b.variant in ("Err", "None") and isinstance(a, Enum) and a.variant in ("Ok", "Some"):
                 self.resolve_alt(v.cond, False, ("guard", v.cond.negate(), b, where, fnname))
+                self.learn(v.cond.negate())
                 return a.payload[0] if a.payload else UNIT
             if isinstance(a, Enum) and isinstance(b, Enum) and a.variant == b.variant and a.variant in ("Ok", "Some"):
                 pa = a.payload[0] if a.payload else UNIT
@@ -2066,8 +2167,19 @@ class Interp:
 
         return lib.call(self, e, env)
 
+    def newtype_inner(self, v):
+        """the wrapped vector of a crate-local newtype that implements Deref / IntoIterator / Index over it"""
+        if isinstance(v, Struct) and len(v.fields) == 1:
+            inner = self.deref(next(iter(v.fields.values())))
+            if isinstance(inner, Vec) and any((imp["trait"] or "").endswith(("ops::Deref", "iter::IntoIterator", "ops::Index")) and imp["self_ty"].startswith(v.path) for imp in self.F.items["impls"]):
+                return inner
+        return None
+
     def to_iter(self, v, node=None):
         v = self.deref(v)
+        nt = self.newtype_inner(v)
+        if nt is not None:
+            v = nt
         if isinstance(v, IterV):
             return v
         if isinstance(v, Vec):
